@@ -156,10 +156,45 @@ def f_type(s, r):
     _word_decoys(s, r)
 def f_challenge_other(s, r): s.sign_challenge = bytes(x ^ 0xFF for x in s.challenge)
 def f_challenge_trunc(s, r): s.sign_challenge = s.challenge[:-1] if r.random() < 0.5 else s.challenge + b"\x00"
+def challenge_text_relation(s, r):
+    """(expected challenge, carried challenge) related by a text encoding - one is the hex / Base64 / decimal TEXT of the other: different byte strings"""
+    import base64
+    raw = bytes(r.randrange(256) for _ in range(16))
+    v = r.choice(["expected-is-hex-of-carried", "carried-is-hex-of-expected", "expected-is-HEX-of-carried", "expected-is-base64-of-carried", "expected-is-decimal-of-carried", "carried-is-hex-of-expected"])
+    if v == "expected-is-hex-of-carried":
+        s.challenge, s.sign_challenge = raw.hex().encode(), raw
+    elif v == "expected-is-HEX-of-carried":
+        s.challenge, s.sign_challenge = raw.hex().upper().encode(), raw
+    elif v == "carried-is-hex-of-expected":
+        s.sign_challenge = s.challenge.hex().encode()
+    elif v == "expected-is-base64-of-carried":
+        s.challenge, s.sign_challenge = base64.b64encode(raw), raw
+    else:
+        s.challenge, s.sign_challenge = str(int.from_bytes(raw, "big")).encode(), raw
+def member_boundary_shifted(s, r):
+    """type, challenge and origin are three members, each compared with its own expectation: moving characters across the boundary between two of them (the tail of one
+    to the head of the next, so that their CONCATENATION is unchanged) changes two members"""
+    exp_origin = s.exp_origin if getattr(s, "exp_origin", None) is not None else s.origin
+    if not isinstance(exp_origin, str):
+        exp_origin = exp_origin[0]
+    if getattr(s, "exp_origin", "absent") is None:
+        s.exp_origin = exp_origin
+    v = r.choice(["type-tail-to-challenge", "challenge-tail-from-origin", "origin-head-to-challenge-2", "type-takes-challenge-head"])
+    ch = s.challenge
+    if v == "type-tail-to-challenge":
+        s.cd_type, s.sign_challenge = s.cd_type[:-1], s.cd_type[-1:].encode() + ch
+    elif v == "challenge-tail-from-origin":
+        s.sign_challenge, s.origin = ch + exp_origin[:5].encode(), exp_origin[5:]
+    elif v == "origin-head-to-challenge-2":
+        s.sign_challenge, s.origin = ch + exp_origin[:8].encode(), exp_origin[8:]
+    else:
+        s.cd_type, s.sign_challenge = s.cd_type + ch[:1].decode("latin-1"), ch[1:]
 def f_challenge_b64_alias(s, r):
     # the expected challenge is printable base64url text and the client data carries its base64url DECODING, or the client data
     # carries the base64url ENCODING of the expected bytes as its challenge
     import base64
+    if r.random() < 0.3:
+        return challenge_text_relation(s, r)
     if r.random() < 0.5:
         txt = "".join(r.choice("ABCDEFGHIJKLMNOPQRSTUVWXYZabcdefghijklmnopqrstuvwxyz0123456789-_") for _ in range(43))
         s.challenge = txt.encode()
@@ -361,6 +396,7 @@ FAULTS = {
     "id-not-b64-rawid:non-ascii-appended": id_fault("non-ascii-appended"), "id-not-b64-rawid:zero-width-space-inside": id_fault("zero-width-space-inside"), "id-not-b64-rawid:nul-appended": id_fault("nul-appended"),
     "id-not-b64-rawid:char-appended": id_fault("char-appended"), "id-not-b64-rawid:truncated": id_fault("truncated"), "id-not-b64-rawid:empty": id_fault("empty"),
     "credential-type": f_cred_type, "challenge-base64url-alias": f_challenge_b64_alias, "origin-alias-spelling": f_origin_alias, "client-data-affix-not-signed": f_cd_unsigned_affix, "signed-over-another-arrangement-of-the-same-data": f_sign_other_base, "rp-id-hash-of-another-ceremony-string": f_rp_hash_of_other_string, "client-data-is-a-json-string-wrapping-the-object": f_cd_wrapped_as_string, "client-data-malformed-affix-not-signed": f_cd_unsigned_affix_malformed, "origin-expected-read-as-pattern": f_origin_pattern, "declared-algorithm-of-another-family": f_declared_alg_foreign, "client-data-announce-another-digest-and-are-hashed-with-it": f_cd_announces_digest,
+    "challenge-is-a-text-encoding-of-the-expected-one-or-vice-versa": challenge_text_relation, "characters-moved-across-the-boundary-between-two-client-data-members": member_boundary_shifted,
 }
 # faults that can only be expressed in some input forms
 RECORD_ONLY = {"credential-type"}
